@@ -576,6 +576,46 @@ func init() {
 		}
 		return nil
 	}
+	// sync.Pool as one process sees it when nothing is collected in between: Get hands back the value put last (the
+	// per-P private slot), or New() when the pool is empty. Pool operations are synchronised, so they are not logged as
+	// conflicting accesses; what a pooled value still holds is visible to the next user, which is what matters here.
+	intrinsics["(*sync.Pool).Get"] = func(in *Interp, caller *frame, fn *ssa.Function, args []Value) Value {
+		pool := args[0].(*Value)
+		if pool == nil {
+			in.throwNilDeref()
+		}
+		if items := in.pools[pool]; len(items) > 0 {
+			v := items[len(items)-1]
+			in.pools[pool] = items[:len(items)-1]
+			return v
+		}
+		st := (*pool).(Struct)
+		newFn := st[len(st)-1] // New func() any is the last field
+		if c, ok := newFn.(*Closure); ok && c == nil {
+			return Iface{}
+		}
+		if f, ok := newFn.(*ssa.Function); ok && f == nil {
+			return Iface{}
+		}
+		if newFn == nil {
+			return Iface{}
+		}
+		return in.call(caller, newFn, nil)
+	}
+	intrinsics["(*sync.Pool).Put"] = func(in *Interp, caller *frame, fn *ssa.Function, args []Value) Value {
+		pool := args[0].(*Value)
+		if pool == nil {
+			in.throwNilDeref()
+		}
+		if x, ok := args[1].(Iface); ok && x.T == nil {
+			return nil
+		}
+		if in.pools == nil {
+			in.pools = map[*Value][]Value{}
+		}
+		in.pools[pool] = append(in.pools[pool], args[1])
+		return nil
+	}
 	intrinsics["internal/stringslite.Clone"] = func(in *Interp, caller *frame, fn *ssa.Function, args []Value) Value { return args[0] }
 	intrinsics["strings.Clone"] = func(in *Interp, caller *frame, fn *ssa.Function, args []Value) Value { return args[0] }
 	intrinsics["internal/abi.NoEscape"] = func(in *Interp, caller *frame, fn *ssa.Function, args []Value) Value { return args[0] }
